@@ -775,7 +775,22 @@ func c19StdlibValue(t *c19Target, idx []int, v interface{}) string {
 	return "?"
 }
 
+// c19Run wraps the execution of a case: a panic that escapes the code under test is the result "X" — also a
+// panic(nil) under GODEBUG=panicnil=1, for which recover() returns nil (hence the completion flag).
 func c19Run(payload string) (res string) {
+	finished := false
+	defer func() {
+		if r := recover(); r != nil || !finished {
+			CountRun("escaped panic")
+			res = "X"
+		}
+	}()
+	res = c19RunCase(payload)
+	finished = true
+	return res
+}
+
+func c19RunCase(payload string) (res string) {
 	f := strings.Split(payload, " ")
 	if len(f) > 4 && f[1] == "R" {
 		return c19RunReentry(f[2:])
@@ -843,12 +858,6 @@ func c19Run(payload string) (res string) {
 		for i, u := range idx {
 			args[i] = c19Universe[u].v
 		}
-		defer func() {
-			if r := recover(); r != nil {
-				CountRun("escaped panic")
-				res = "X"
-			}
-		}()
 		ret, err := t.adapter.Run("c19", c19DirectScope, map[string]interface{}{}, 0, args)
 		if err != nil {
 			who := "b"
